@@ -28,7 +28,9 @@ def child(job, wfd):
         if "max_failures" in kw and kw["max_failures"] is None:
             kw["max_failures"] = float("inf")
         try:
-            session = pytask.build(paths=[job["root"]], **kw)
+            # optional job key "paths": sub-directories of the project to build (relative); default = the whole project
+            paths = [os.path.join(job["root"], p) for p in job["paths"]] if job.get("paths") else [job["root"]]
+            session = pytask.build(paths=paths, **kw)
         except BaseException as e:  # noqa: BLE001
             res["raised"] = type(e).__name__
             session = None
